@@ -28,7 +28,7 @@ PROPS = {
                     "statement keeps its semicolon token and trailing trivia (pair pushed as returned), in the same position.",
         not_decided=["in-range statements come out as in whole-file formatting (relates two runs)", "stmt_block::format_stmt_block touches only nested blocks (assumed, class C)"],
         assumptions=[]),
-    "C03": dict(units=["tok", "args", "stmt", "table"], bounded=[dict(kind="lib", witnesses="C03_BOUNDED"), dict(kind="corpus", kinds=["comments"])],
+    "C03": dict(units=["tok", "args", "stmt", "table"], bounded=[dict(kind="lib", witnesses="C03_BOUNDED"), dict(kind="corpus", kinds=["comments"]), dict(kind="inject", kinds=["comments"])],
         explanation="token/trivia layer, all real text: format_token keeps a comment's kind, long-bracket level and text (line comments right-trimmed, block comments newline-normalised) and "
                     "creates only whitespace; load_token_trivia (real loop over a Peekable with an inner next(), inductive invariant): the comments of the input trivia come out in order, each only "
                     "rewritten as format_token allows, input whitespace is never copied, and in leading trivia every line comment is followed by a newline; format_token_reference / format_symbol / "
@@ -102,7 +102,7 @@ PROPS = {
                      "byte-identical output across carriers is implied only through `same Config`; equality of the library's output for equal Configs is determinism of format_code, not proved"],
         assumptions=["ec4rs Properties::get::<T>() returns the parsed value of key T (wrappers); the string parsers generated by property_choice! are macro output (assumed)"],
         technique="Kani complete enumeration of finite enum domains + Verus contracts on mechanically extracted real functions"),
-    "C07": dict(bounded=[dict(kind="lib", witnesses="C07_BOUNDED"), dict(kind="corpus", kinds=["panic", "error", "timeout"])], units=["expr", "block", "ctx", "lib", "tok", "cli_io", "diff", "config", "econf", "sort", "args", "table", "stmt", "luau"], kani=["shape"],
+    "C07": dict(bounded=[dict(kind="lib", witnesses="C07_BOUNDED"), dict(kind="corpus", kinds=["panic", "error", "timeout"]), dict(kind="inject", kinds=["panic", "error"])], units=["expr", "block", "ctx", "lib", "tok", "cli_io", "diff", "config", "econf", "sort", "args", "table", "stmt", "luau"], kani=["shape"],
         explanation="Totality of the library call, decided per function under contract: inside every function whose real text is verified, each panic!/unreachable!/assert!/expect/unwrap, "
                     "each usize subtraction/addition/multiplication and every recursion or loop (decreases) is an obligation Verus discharges for all inputs (one `.total` obligation per function and "
                     "feature set). format_code returns Err(ParseError) iff the input does not parse and never Ok otherwise; format_ast without verification always returns Ok. "
@@ -121,7 +121,7 @@ PROPS = {
                      "slice::sort_by_key is assumed to be a stable sort by the name (class B wrapper); the leading-trivia swap (comments of the group's first line stay on top) is a hole: comment preservation inside a sorted group is only exercised by the bounded witnesses",
                      "get_expression_kind (what counts as a require / GetService call): string matching, assumed"],
         assumptions=["parsed ASTs carry positions; local names are identifier tokens (parser)"]),
-    "C02": dict(units=["expr", "block", "lib", "tok", "args", "table", "stmt", "luau"], bounded=[dict(kind="lib", witnesses="C02_BOUNDED"), dict(kind="corpus", kinds=["tree", "literals"])],
+    "C02": dict(units=["expr", "block", "lib", "tok", "args", "table", "stmt", "luau"], bounded=[dict(kind="lib", witnesses="C02_BOUNDED"), dict(kind="corpus", kinds=["tree", "literals"]), dict(kind="inject", kinds=["tree", "literals"])],
         explanation="expression spine: same obligations as C05 (operator tree, leaves, operators) plus line safety (code printed behind a line comment silently disappears: D25, D32, D33); "
                     "statements of a block are the input's, in order (format_block invariant); token layer: names/symbols/numbers/strings per fmt_tt; call sugar keeps the single argument (args_sem); "
                     "table fields keep kind, key and value trees (format_field, format_field_expression_value); a condition loses at most its top-level parentheses; "
@@ -130,7 +130,7 @@ PROPS = {
         not_decided=["statement formatters other than format_block / format_stmt dispatch (if, while, for, function, assignment bodies): assumed to rebuild the same node kind (class C stubs)",
                      "the context flags handed to keep_parentheses (format_type_info_internal) are not under contract"],
         assumptions=["leaf formatters return the same leaf (var_id, call_id, table_id, ... postconditions on stubs)"]),
-    "C01": dict(units=["expr", "block", "lib", "tok", "table"], bounded=[dict(kind="lib", witnesses="C01_BOUNDED"), dict(kind="corpus", kinds=["parse"])],
+    "C01": dict(units=["expr", "block", "lib", "tok", "table"], bounded=[dict(kind="lib", witnesses="C01_BOUNDED"), dict(kind="corpus", kinds=["parse"]), dict(kind="inject", kinds=["parse"])],
         explanation="necessary conditions, each a mechanism the property names: (1) `- -x` guard on both layout paths, right-open expressions never freed under an operator (C05 contract); "
                     "(2) a long-bracket string is separated from `[` (format_index, format_field, is_brackets_string); (3) the statement separator is kept where the next statement starts with `(` "
                     "(format_block); (4) LINE SAFETY inside expressions (prelude/lines.rs): esafe(r) is a postcondition of format_expression, format_expression_internal, hang_binop_expression, "
@@ -269,7 +269,9 @@ LINE_SAFE_WITNESSES = [w('local s = ( -- x\n"x"):rep(3)\nlocal t = ("x" -- y\n):
 D30_FINDINGS = [w('local -- x\n x = 1\n', oracle="comments"), w('for -- x\n i = 1, 2 do end\n', oracle="comments"), w('for i = 1, -- x\n 2 do end\n', oracle="comments"),
                 w('local function f -- x\n() end\n', oracle="comments"), w('function m.n -- x\n:o() end\n', oracle="comments"), w('repeat a() until -- x\n b\n', oracle="comments"),
                 w('local t = { [ -- x\n 2] = 3 }\n', oracle="comments"), w('goto -- x\n done\n::done::\n', oracle="comments", syntax="lua52")]
-D30_TREE_FINDINGS = [w('local x <const> -- x\n = 1\n', oracle="tree", syntax="lua54")]
+ATTR_COMMENT_WITNESSES = [w('local x <const> -- x\n = 1\nlocal y <const>, z <close> -- y\n = 1, 2\n', oracle="tree", syntax="lua54"), w('local x: number -- x\n = 1\nlocal f: (number) -> () -- y\n = g\n', oracle="tree", syntax="luau"),
+                          w('local x = #t + -\n-- x\nn\nfoo(-\n--[[c]] a)\n', oracle="tree", sweep=(10, 120))]
+D30_TREE_FINDINGS = []
 OPEN_C03_FINDINGS = [w('local a = { c -- k\n = bar() }\n', oracle="comments"),   # D29
     w('local t = { a -- c\n, -- d\n b }\n', oracle="comments"), w('foo(a -- c\n, -- d\n b)\n', oracle="comments"), w('return a -- c\n, -- d\n b\n', oracle="comments")]   # D28, one per formatter
 WITNESSES = {
@@ -293,7 +295,7 @@ WITNESSES = {
 }
 
 C01_BOUNDED = [x for x in COLLAPSE_WITNESSES if x["oracle"] == "comments"] + BRACKET_WITNESSES + REHANG_WITNESSES[1:] + BINOP_COMMENT_WITNESSES + CALL_COMMENT_WITNESSES[:1] + PARAM_COMMENT_WITNESSES + UNOP_COMMENT_WITNESSES + ARG_PAREN_COMMENT_WITNESSES + [LINE_SAFE_WITNESSES[i] for i in (0, 2, 4)] + OPEN_COMMENT_FINDINGS + D30_FINDINGS
-C02_BOUNDED = TYPE_WITNESSES + [x for x in COLLAPSE_WITNESSES if x["oracle"] == "tree"] + CALL_COMMENT_WITNESSES[1:] + [LINE_SAFE_WITNESSES[i] for i in (1, 3)] + D30_TREE_FINDINGS
+C02_BOUNDED = TYPE_WITNESSES + [x for x in COLLAPSE_WITNESSES if x["oracle"] == "tree"] + CALL_COMMENT_WITNESSES[1:] + [LINE_SAFE_WITNESSES[i] for i in (1, 3)] + ATTR_COMMENT_WITNESSES + D30_TREE_FINDINGS
 C03_BOUNDED = (TABLE_COMMENT_WITNESSES + COND_COMMENT_WITNESSES + SEMI_COMMENT_WITNESSES + [x for x in COLLAPSE_WITNESSES if x["oracle"] == "comments"][:2]
                + PAREN_COMMENT_WITNESSES + REHANG_WITNESSES[:1] + SORT_COMMENT_WITNESSES + FIELD_COMMENT_WITNESSES + OPEN_C03_FINDINGS)
 def nest(n, open_, close): return "local v = " + "".join(open_ for _ in range(n)) + "1" + "".join(close for _ in range(n)) + "\n"
